@@ -301,6 +301,27 @@ pub fn run_case(c: &Sexp) -> Sexp {
                 Err(_) => err(),
             })
         }
+        // (parse-with-list #main #other ...) -> (ok MAIN OTHER...) | (err) | (panic) : Schema::parse_str_with_list
+        "parse-with-list" => {
+            let mut texts = Vec::new();
+            for x in a {
+                match x.as_str_utf8() {
+                    Some(t) => texts.push(t),
+                    None => return Sexp::tag("not-utf8", vec![]),
+                }
+            }
+            if texts.is_empty() {
+                return bad("arity");
+            }
+            guarded(|| match Schema::parse_str_with_list(&texts[0], texts[1..].iter().map(|t| t.as_str())) {
+                Ok((m, v)) => {
+                    let mut out = vec![schema_to_sexp(&m)];
+                    out.extend(v.iter().map(schema_to_sexp));
+                    ok(out)
+                }
+                Err(_) => err(),
+            })
+        }
         // (parse-text #text) -> (not-json) | (obs JSON (ok SCHEMA)|(err)|(panic))
         "parse-text" => {
             let Some(txt) = a[0].as_str_utf8() else { return Sexp::tag("not-utf8", vec![]) };
